@@ -220,6 +220,60 @@ def search(payload):
                     break
         if len(fails) >= 5:
             break
+    # LIBRARY atoms under the quantifiers (not only instrumented ones): for-all / exists over the elements, whatever the atom
+    import math
+    from predicate.standard_predicates import eq_p, ne_p, is_none_p, is_not_none_p, le_p, is_bool_p, is_float_p
+    from predicate.set_predicates import in_p
+    nan = math.nan
+    lib_atoms = [("eq_p('ab')", eq_p("ab"), lambda v: v == "ab"), ("eq_p('a')", eq_p("a"), lambda v: v == "a"), ("eq_p(1)", eq_p(1), lambda v: v == 1),
+                 ("eq_p(nan)", eq_p(nan), lambda v: v == nan), ("ne_p(1)", ne_p(1), lambda v: v != 1), ("is_none_p", is_none_p, lambda v: v is None),
+                 ("eq_p(None)", eq_p(None), lambda v: v == None), ("in_p(1, 2)", in_p(1, 2), lambda v: v in {1, 2}),  # noqa: E711
+                 ("is_bool_p", is_bool_p, lambda v: isinstance(v, bool)), ("eq_p((1, 2))", eq_p((1, 2)), lambda v: v == (1, 2))]
+    colls = ["abc", "ab", "", "a", [1.0, nan], [nan], [1, 2], [2, 3], [None], [None, 1], (), [True], [1.0], ["ab", "c"], [(1, 2)], (1, 2), {1, 5}, {"a": 1}, [[1, 2]], b"ab"]
+    for aname, atom_, ref_ in lib_atoms:
+        for xs in colls:
+            for q, qname, agg in ((all_p, "all", all), (any_p, "any", any)):
+                n += 1
+                try:
+                    exp = ("ok", agg(bool(ref_(v)) for v in xs))
+                except Exception as e:  # noqa: BLE001  (e.g. unhashable element for `in`): the library must raise too
+                    exp = ("raise", type(e).__name__)
+                got = call(q(atom_), xs)
+                if (got[0], bool(got[1]) if got[0] == "ok" else got[1]) != exp and not (got[0] == exp[0] == "raise"):
+                    fails.append({"quantifier": qname, "element_predicate": aname, "items": repr(xs), "result": repr(got), "expected": repr(exp),
+                                  "note": "plain-Python definition: " + qname + "(p(v) for v in x)"})
+    # a library atom on one side of a connective, an instrumented atom on the other: the instrumented one is (not) called as the order demands
+    from predicate.standard_predicates import is_falsy_p, is_truthy_p
+    guards = [("is_not_none_p", is_not_none_p, lambda v: v is not None), ("is_none_p", is_none_p, lambda v: v is None), ("is_int_p", is_int_p, lambda v: isinstance(v, int)),
+              ("is_str_p", is_str_p, lambda v: isinstance(v, str)), ("always_true_p", PP.always_true_p, lambda v: True), ("always_false_p", PP.always_false_p, lambda v: False),
+              ("is_truthy_p", is_truthy_p, lambda v: bool(v)), ("is_falsy_p", is_falsy_p, lambda v: not v), ("eq_p(1)", eq_p(1), lambda v: v == 1)]
+    for gname, g_, gref in guards:
+        for x in (None, 0, 1, "s", ""):
+            for other in (True, False):
+                for side in ("left", "right"):
+                    for opname, build, short in (("and", lambda a, b: a & b, False), ("or", lambda a, b: a | b, True)):
+                        n += 1
+                        del log[:]
+                        rec = atom("R", other)
+                        p_ = build(g_, rec) if side == "left" else build(rec, g_)
+                        got = call(p_, x)
+                        gv = bool(gref(x))
+                        exp_val = (gv and other) if opname == "and" else (gv or other)
+                        if side == "left":          # the library atom decides first; the recorder runs only when it does not decide
+                            exp_calls = [] if gv == short else ["R"]
+                        else:                       # the recorder is the left operand: it always runs, first
+                            exp_calls = ["R"]
+                        if got != ("ok", exp_val) or [c[0] for c in log] != exp_calls:
+                            fails.append({"op": opname, "library_atom": gname, "library_atom_is_the": side + " operand", "other_operand_returns": other, "x": repr(x),
+                                          "result": repr(got), "expected": exp_val, "calls_of_the_other_operand": [c[0] for c in log], "expected_calls": exp_calls})
+    # nested comp_p: comp_p(f, comp_p(g, p))(x) is p(g(f(x)))
+    for f_, g_, x, want in ((len, str, "abc", "3"), (len, str, [7, 8, 9], "3"), (str, len, 12345, 5), (lambda v: v + 1, lambda v: v * 2, 3, 8), (lambda v: v * 2, lambda v: v + 1, 3, 7)):
+        n += 1
+        leaf = atom("P", lambda v, want=want: v == want)
+        del log[:]
+        got = call(comp_p(f_, comp_p(g_, leaf)), x)
+        if got != ("ok", True) or [c[1] for c in log] != [want]:
+            fails.append({"case": "comp_p(f, comp_p(g, p))(x) must be p(g(f(x)))", "x": repr(x), "result": repr(got), "p_was_called_with": repr([c[1] for c in log]), "expected_argument": repr(want)})
     # comp_p on the same (mutable) object twice: f is applied at every call, to the object as it is now
     calls = []
     cp = comp_p(lambda x: (calls.append(list(x)), len(x))[1], atom("P", lambda v: v <= 2))
